@@ -57,6 +57,12 @@ CHECKS["C13"] = dict(
     note="Coq kernel; SHA-1; UFL signatures; Python str() of tuples/options; tr_naming.py",
     design="DESIGN.md 3 C13")
 
+CHECKS["C20"] = dict(
+    technique="Coq proof of option precedence (association-list model of get_options and of main's priority options, option table and argparse defaults regenerated from the source by tr_opts) and of header/source assembly; end-to-end run of ffcx.main.main: gcc stand-alone, nm declared-subset-of-defined, aliases, kernels vs JIT path bit for bit, option matrix over the three sources",
+    text="For every option key and all contents of the three sources: command line > $PWD file > user file > defaults (an option absent from the command line is None in argparse - checked on the regenerated table). Header = declarations, source = implementations in block order. One representative UFL file (named forms, forms list, expression, element) is compiled through the CLI and compared with the JIT kernels bit for bit.",
+    note="Coq kernel+VM; tr_opts.py; UFL file loader; gcc/nm/cffi; programs: one UFL file + option matrix",
+    design="DESIGN.md 3 C20")
+
 ALL = [f"C{i:02d}" for i in range(1, 21)]
 
 NOT_YET = "check not built yet in this session (work in progress; see DESIGN.md section 6 for the order of construction)"
